@@ -231,6 +231,10 @@ func regC17(add addFn, p pFn) {
 			add(&Instance{Property: "C17", Name: "mic-binding-e" + itoa(et) + "-m" + itoa(mode), Entry: "gssapi.VH_C17_MICBinding", Params: p("etype", et, "n", 3, "mode", mode), Stubs: append([]string{"idealmac"}, cs...), Logic: "QF_UFBV", Reach: []string{"checked"},
 				Bound: "as wrap-binding"})
 		}
+		for w, wn := range []string{"mic", "wrap"} {
+			add(&Instance{Property: "C17", Name: wn + "-key-buffer-reuse-e" + itoa(et), Entry: "gssapi.VH_C17_KeyBufferReuse", Params: p("etype", et, "n", 3, "wrap", w), Stubs: append([]string{"idealmac"}, cs...), Logic: "QF_UFBV", Reach: []string{"done"},
+				Bound: "history of 4 calls on one key buffer refilled in place with ANY unrelated key between the second and the third; 3-byte payload; flags, sequence number, usage symbolic (idealised MAC)"})
+		}
 		add(&Instance{Property: "C17", Name: "initiator-tokens-e" + itoa(et), Entry: "gssapi.VH_C17_InitiatorTokens", Params: p("etype", et, "n", 5), Stubs: cs, Logic: "QF_UFBV", Reach: []string{"done"}, Bound: "5-byte payload, symbolic key"})
 	}
 	for _, c := range []int{0, 12, 16, 24} {
@@ -677,11 +681,15 @@ func regC13b(add addFn, p pFn) {
 func regC19(add addFn, p pFn) {
 	st := []string{"ndrhavoc", "nfolduf", "des3rtkuf", "idealmac"}
 	for _, et := range []int{17, 18, 19, 20, 23} {
-		add(&Instance{Property: "C19", Name: "general-e" + itoa(et), Entry: "pac.VH_C19_Verify", Params: p("etype", et, "mode", 0, "order", 0, "rodc", 0, "maxseq", 0, "maxstr", 0), Stubs: st, Logic: "QF_UFBV", Replay: "stubbed",
+		add(&Instance{Property: "C19", Name: "general-e" + itoa(et), Entry: "pac.VH_C19_Verify", Params: p("etype", et, "mode", 0, "order", 0, "rodc", 0, "extra", 0, "maxseq", 0, "maxstr", 0), Stubs: st, Logic: "QF_UFBV", Replay: "stubbed",
 			Reach: []string{"accepted", "rejected"}, Bound: "PAC of 4 mandatory buffers (logon info 8 bytes, client info, server and KDC signatures of the declared type), EVERY content incl. every signature value"})
 		for mode := 1; mode <= 4; mode++ {
-			add(&Instance{Property: "C19", Name: "tamper-e" + itoa(et) + "-m" + itoa(mode), Entry: "pac.VH_C19_Verify", Params: p("etype", et, "mode", mode, "order", (mode+et)%4, "rodc", mode%2, "maxseq", 0, "maxstr", 0), Stubs: st, Logic: "QF_UFBV", Replay: "stubbed",
+			add(&Instance{Property: "C19", Name: "tamper-e" + itoa(et) + "-m" + itoa(mode), Entry: "pac.VH_C19_Verify", Params: p("etype", et, "mode", mode, "order", (mode+et)%4, "rodc", mode%2, "extra", 0, "maxseq", 0, "maxstr", 0), Stubs: st, Logic: "QF_UFBV", Replay: "stubbed",
 				Reach: []string{"checked"}, Bound: "correctly signed PAC; mode 1 every non-zero mask over the signed buffer contents (incl. RODC identifiers), 2 over the server signature, 3 every other key, 4 version field (idealised MAC); buffer orders rotated"})
+		}
+		for _, mode := range []int{0, 1} {
+			add(&Instance{Property: "C19", Name: "extra-buffer-e" + itoa(et) + "-m" + itoa(mode), Entry: "pac.VH_C19_Verify", Params: p("etype", et, "mode", mode, "order", et%4, "rodc", 0, "extra", 1, "maxseq", 0, "maxstr", 0), Stubs: st, Logic: "QF_UFBV", Replay: "stubbed",
+				Reach: []string{[]string{"accepted", "checked"}[mode]}, Bound: "as general / tamper mode 1, with a fifth buffer of EVERY type the library does not interpret (ticket signature 16, full-PAC signature 19, ...) and arbitrary signature-shaped content: it is signed data like any other"})
 		}
 		for drop := 0; drop < 4; drop++ {
 			add(&Instance{Property: "C19", Name: "mandatory-e" + itoa(et) + "-d" + itoa(drop), Entry: "pac.VH_C19_Mandatory", Params: p("etype", et, "drop", drop, "maxseq", 0, "maxstr", 0), Stubs: st, Logic: "QF_UFBV", Replay: "stubbed",
